@@ -38,7 +38,7 @@ def osCmd (st : DState) : List (List Char) → Option (DState × List (List Char
         | (m1, .ok (.handle h)) =>
           if data = [] then pure ({ st with fs := m1 }, [s2l "ok", h.name])
           else
-            (match fs.hwrite m1 h (String.ofList data) with
+            (match fs.hwrite m1 h 0 (String.ofList data) with
              | (m2, .error e) => pure ({ st with fs := m2 }, [s2l "err-write", s2l (errName e)])
              | (m2, .ok ()) => pure ({ st with fs := m2 }, [s2l "ok", h.name]))
         | (m1, .ok _) => pure ({ st with fs := m1 }, [s2l "err", s2l "other"])
@@ -50,7 +50,7 @@ def osCmd (st : DState) : List (List Char) → Option (DState × List (List Char
         | (m1, .ok (.handle h)) =>
           if data = [] then pure ({ st with fs := m1 }, [s2l "ok", h.name])
           else
-            (match fs.hwrite m1 h (String.ofList data) with
+            (match fs.hwrite m1 h 0 (String.ofList data) with
              | (m2, .error e) => pure ({ st with fs := m2 }, [s2l "err-write", s2l (errName e)])
              | (m2, .ok ()) => pure ({ st with fs := m2 }, [s2l "ok", h.name]))
         | (m1, .ok _) => pure ({ st with fs := m1 }, [s2l "err", s2l "other"])
